@@ -74,7 +74,11 @@ type c29Op struct {
 	Turns     int       `json:"turns,omitempty"`  // producer: emits this many batches, then finishes
 	TurnHolds []c29Cond `json:"turn_holds,omitempty"`
 	Stream    string    `json:"stream,omitempty"`
-	Why       string    `json:"why,omitempty"` // template that produced the op (classification only)
+	NoSession bool      `json:"no_session,omitempty"` // stream-continue sent without the VGI-Session header
+	Cancel    bool      `json:"cancel,omitempty"`     // stream-continue carries vgi_rpc.cancel (the OnCancel path)
+	InitFail  int       `json:"init_fail,omitempty"`  // stream-init: the init handler returns an error (1) / panics (2) after its hold
+	TurnFails []int     `json:"turn_fails,omitempty"` // stream-init: same for turn k
+	Why       string    `json:"why,omitempty"`        // template that produced the op (classification only)
 }
 
 type c29Case struct {
@@ -127,12 +131,12 @@ func (g *c29Gen) delay() int { return rapid.IntRange(0, 4000).Draw(g.t, "delay_u
 func genC29(t *rapid.T) c29Case {
 	c := c29Case{
 		Workers: rapid.IntRange(1, 3).Draw(t, "workers"),
-		Idents:  rapid.IntRange(2, 4).Draw(t, "idents"),
+		Idents:  []int{2, 3, 5, 5, 5}[rapid.IntRange(0, 4).Draw(t, "idents")],
 	}
 	g := &c29Gen{t: t, c: &c}
 	nt := rapid.IntRange(1, 4).Draw(t, "ntemplates")
 	for i := 0; i < nt; i++ {
-		switch k := rapid.IntRange(0, 21).Draw(t, "template"); {
+		switch k := rapid.IntRange(0, 24).Draw(t, "template"); {
 		case k < 3: // a second request arrives while the first holds the session and then closes it
 			s := g.slot(true, false)
 			x, y := g.newClient(), g.newClient()
@@ -201,6 +205,12 @@ func genC29(t *rapid.T) c29Case {
 			g.add(d, g.own(s, "use")) // after the DELETE completed
 		case k < 11: // other identity / other worker / garbled token, concurrently with the owner
 			s := g.slot(true, false)
+			// same principal under another domain, and authenticated-with-empty-principal vs anonymous
+			special := -1
+			if c.Idents == 5 && rapid.Bool().Draw(t, "fspecial") {
+				pair := [][2]int{{1, 3}, {3, 1}, {0, 4}, {4, 0}}[rapid.IntRange(0, 3).Draw(t, "fpair")]
+				c.Slots[s].Owner, special = pair[0], pair[1]
+			}
 			o := g.newClient()
 			own := g.own(s, "use")
 			own.Why = "foreign"
@@ -216,6 +226,9 @@ func genC29(t *rapid.T) c29Case {
 				switch rapid.IntRange(0, 2).Draw(t, "fhow") {
 				case 0:
 					op.Ident = (op.Ident + 1 + rapid.IntRange(0, c.Idents-2).Draw(t, "fident")) % c.Idents
+					if special >= 0 {
+						op.Ident = special
+					}
 				case 1:
 					if c.Workers > 1 {
 						op.Worker = (op.Worker + 1 + rapid.IntRange(0, c.Workers-2).Draw(t, "fworker")) % c.Workers
@@ -302,6 +315,15 @@ func genC29(t *rapid.T) c29Case {
 				init.TurnHolds = make([]c29Cond, stage+1)
 				init.TurnHolds[stage] = hold
 			}
+			// the stage that holds the session may then fail: error or panic with a request queued on the lock
+			if fk := []int{0, 0, 0, 1, 2}[rapid.IntRange(0, 4).Draw(t, "sfail")]; fk != 0 {
+				if stage < 0 {
+					init.InitFail = fk
+				} else {
+					init.TurnFails = make([]int, stage+1)
+					init.TurnFails[stage] = fk
+				}
+			}
 			xID := g.add(x, init)
 			for j := 0; j < ncont; j++ {
 				cont := g.own(s, "stream-continue")
@@ -328,6 +350,49 @@ func genC29(t *rapid.T) c29Case {
 				}
 				g.add(g.newClient(), f)
 			}
+		case k < 24: // continuations (/exchange, incl. cancel) of a session-bearing stream presented by someone else
+			s := g.slot(true, false)
+			x := g.newClient()
+			method := []string{"s29_prod", "s29_exch"}[rapid.IntRange(0, 1).Draw(t, "fcmethod")]
+			init := g.own(s, "stream-init")
+			init.Method, init.Turns, init.Why = method, 3, "foreign-continue"
+			xID := g.add(x, init)
+			last := xID
+			if rapid.Bool().Draw(t, "fcfirst") {
+				cont := g.own(s, "stream-continue")
+				cont.Method, cont.Stream, cont.Why = method, xID, "foreign-continue"
+				last = g.add(x, cont)
+			}
+			nf := rapid.IntRange(1, 3).Draw(t, "fcn")
+			var fids []string
+			for j := 0; j < nf; j++ {
+				f := g.own(s, "stream-continue")
+				f.Method, f.Stream, f.Why = method, xID, "foreign-continue"
+				f.Cancel = rapid.IntRange(0, 3).Draw(t, "fccancel") == 0
+				switch rapid.IntRange(0, 3).Draw(t, "fchow") {
+				case 0:
+					f.Ident = (f.Ident + 1 + rapid.IntRange(0, c.Idents-2).Draw(t, "fcident")) % c.Idents
+				case 1:
+					if c.Workers > 1 {
+						f.Worker = (f.Worker + 1 + rapid.IntRange(0, c.Workers-2).Draw(t, "fcworker")) % c.Workers
+					} else {
+						f.Garble = -1
+					}
+				case 2:
+					f.Garble = rapid.IntRange(1, 640).Draw(t, "fcbit")
+				default:
+					f.NoSession = true
+				}
+				f.After = &c29Cond{Op: last, Ev: "done"}
+				fids = append(fids, g.add(g.newClient(), f))
+			}
+			// the owner carries on afterwards: the stream and the session are untouched
+			cont := g.own(s, "stream-continue")
+			cont.Method, cont.Stream, cont.Why = method, xID, "foreign-continue"
+			cont.After = &c29Cond{Op: fids[len(fids)-1], Ev: "done"}
+			cont.Cancel = rapid.IntRange(0, 2).Draw(t, "fcowncancel") == 0
+			g.add(x, cont)
+			g.add(x, g.own(s, "use"))
 		default: // open inside the history: plain, without Accept, panicking after opening, slow
 			o := g.newClient()
 			ns := g.slot(false, rapid.IntRange(0, 3).Draw(t, "pshort") == 0)
@@ -543,15 +608,34 @@ type c29Stream struct {
 	Turns int
 	Pos   int
 	Holds []c29Cond
+	Fails []int // per turn: 1 = return an error, 2 = panic (after the hold, i.e. while holding the session)
+}
+
+func c29Fail(rc *c29Run, actor string, kind int) error {
+	switch kind {
+	case 1:
+		rc.rec(actor, "stagefail", -1, "error")
+		return &vgirpc.RpcError{Type: "StageError", Message: "c29: stage fails on purpose"}
+	case 2:
+		rc.rec(actor, "stagefail", -1, "panic")
+		panic("c29: stage panics while holding the session")
+	}
+	return nil
 }
 
 // stage records one interval of user code of a call bearing a session: the
 // init handler ("<op>#init") or turn k ("<op>#t<k>") of a stream.
 func c29Stage(rc *c29Run, ctx *vgirpc.CallContext, actor string, hold *c29Cond) {
+	// every harness request carries its op id as User-Agent, which the framework surfaces as transport metadata:
+	// that attributes a stage to the HTTP request it ran in (a continuation turn has no request id of its own)
+	req := ctx.TransportMetadata["user_agent"]
 	cur := ctx.Session()
 	if cur == nil {
-		rc.rec(actor, "nosession", -1, "")
+		rc.rec(actor, "nosession", -1, req)
 		return
+	}
+	if st, ok := cur.(*c29State); ok && st.rc == rc {
+		rc.rec(actor, "stagereq", st.slot, req)
 	}
 	st, ok := cur.(*c29State)
 	if !ok || st.rc != rc {
@@ -566,7 +650,7 @@ func c29Stage(rc *c29Run, ctx *vgirpc.CallContext, actor string, hold *c29Cond) 
 	}
 }
 
-func (s *c29Stream) turn(ctx *vgirpc.CallContext) (pos int) {
+func (s *c29Stream) turn(ctx *vgirpc.CallContext) (pos int, err error) {
 	pos = s.Pos
 	s.Pos++
 	v, ok := c29Runs.Load(s.RunID)
@@ -577,14 +661,28 @@ func (s *c29Stream) turn(ctx *vgirpc.CallContext) (pos int) {
 	if pos < len(s.Holds) {
 		hold = &s.Holds[pos]
 	}
-	c29Stage(v.(*c29Run), ctx, fmt.Sprintf("%s#t%d", s.Op, pos), hold)
+	actor := fmt.Sprintf("%s#t%d", s.Op, pos)
+	c29Stage(v.(*c29Run), ctx, actor, hold)
+	if pos < len(s.Fails) {
+		err = c29Fail(v.(*c29Run), actor, s.Fails[pos])
+	}
 	return
+}
+
+func (s *c29Stream) cancel(ctx *vgirpc.CallContext) error {
+	if v, ok := c29Runs.Load(s.RunID); ok {
+		c29Stage(v.(*c29Run), ctx, s.Op+"#cancel", nil)
+	}
+	return nil
 }
 
 type c29Prod struct{ S c29Stream } // named field: gob skips an embedded field whose type name is unexported
 
 func (s *c29Prod) Produce(_ context.Context, out *vgirpc.OutputCollector, ctx *vgirpc.CallContext) error {
-	pos := s.S.turn(ctx)
+	pos, err := s.S.turn(ctx)
+	if err != nil {
+		return err
+	}
 	if pos >= s.S.Turns {
 		return out.Finish()
 	}
@@ -594,9 +692,15 @@ func (s *c29Prod) Produce(_ context.Context, out *vgirpc.OutputCollector, ctx *v
 type c29Exch struct{ S c29Stream }
 
 func (s *c29Exch) Exchange(_ context.Context, _ arrow.RecordBatch, out *vgirpc.OutputCollector, ctx *vgirpc.CallContext) error {
-	pos := s.S.turn(ctx)
+	pos, err := s.S.turn(ctx)
+	if err != nil {
+		return err
+	}
 	return out.Emit(lib.MakeOut(lib.OutSchema, int64(pos), 1, 0))
 }
+
+func (s *c29Prod) OnCancel(_ context.Context, ctx *vgirpc.CallContext) error { return s.S.cancel(ctx) }
+func (s *c29Exch) OnCancel(_ context.Context, ctx *vgirpc.CallContext) error { return s.S.cancel(ctx) }
 
 func init() {
 	vgirpc.RegisterStateType(&c29Prod{})
@@ -608,6 +712,8 @@ type c29StreamScript struct {
 	Turns     int       `json:"turns"`
 	Hold      *c29Cond  `json:"hold,omitempty"`
 	TurnHolds []c29Cond `json:"turn_holds,omitempty"`
+	InitFail  int       `json:"init_fail,omitempty"`
+	TurnFails []int     `json:"turn_fails,omitempty"`
 }
 
 func (rc *c29Run) streamInit(exchange bool) func(context.Context, *vgirpc.CallContext, lib.ScriptParams) (*vgirpc.StreamResult, error) {
@@ -617,7 +723,10 @@ func (rc *c29Run) streamInit(exchange bool) func(context.Context, *vgirpc.CallCo
 			panic("harness: bad c29 stream script")
 		}
 		c29Stage(rc, ctx, sc.Op+"#init", sc.Hold)
-		base := c29Stream{RunID: rc.id, Op: sc.Op, Turns: sc.Turns, Holds: sc.TurnHolds}
+		if err := c29Fail(rc, sc.Op+"#init", sc.InitFail); err != nil {
+			return nil, err
+		}
+		base := c29Stream{RunID: rc.id, Op: sc.Op, Turns: sc.Turns, Holds: sc.TurnHolds, Fails: sc.TurnFails}
 		res := &vgirpc.StreamResult{OutputSchema: lib.OutSchema}
 		if exchange {
 			res.State, res.InputSchema = &c29Exch{base}, lib.InSchema
@@ -632,7 +741,12 @@ var c29Empty = arrow.NewSchema(nil, nil)
 
 var c29Key = []byte("c29-shared-token-key-0123456789abcdef")
 
-func c29IdentName(i int) string { return []string{"", "alice", "bob", "carol"}[i] }
+// c29Idents: 0 is the anonymous caller; 3 is identity 1's principal under another domain; 4 is authenticated with an
+// empty principal (which must not collapse into the anonymous caller).
+var c29Idents = []struct {
+	Authn             bool
+	Domain, Principal string
+}{{}, {true, "hdr", "alice"}, {true, "hdr", "bob"}, {true, "alt", "alice"}, {true, "hdr", ""}}
 
 func newC29Run(c c29Case) *c29Run {
 	rc := &c29Run{id: c29RunSeq.Add(1), c: c, chans: map[string]chan struct{}{}, tokens: map[int]string{}, streams: map[string][2]string{}, turnNo: map[string]int{}}
@@ -648,8 +762,8 @@ func newC29Run(c c29Case) *c29Run {
 			panic(err)
 		}
 		hs.SetAuthenticate(func(r *http.Request) (*vgirpc.AuthContext, error) {
-			if v := r.Header.Get("X-Ident"); v != "" {
-				return &vgirpc.AuthContext{Domain: "hdr", Authenticated: true, Principal: v}, nil
+			if r.Header.Get("X-Authn") == "1" {
+				return &vgirpc.AuthContext{Domain: r.Header.Get("X-Domain"), Authenticated: true, Principal: r.Header.Get("X-Ident")}, nil
 			}
 			return vgirpc.Anonymous(), nil
 		})
@@ -696,11 +810,16 @@ func (rc *c29Run) token(slot int) string {
 // do executes one request op and records send/resp.
 func (rc *c29Run) do(op c29Op) (res c29Result) {
 	slot := rc.c.Slots[op.Slot]
-	hdr := map[string]string{}
-	if n := c29IdentName(op.Ident); n != "" {
-		hdr["X-Ident"] = n
+	hdr := map[string]string{"User-Agent": op.ID}
+	if id := c29Idents[op.Ident]; id.Authn {
+		hdr["X-Authn"], hdr["X-Domain"] = "1", id.Domain
+		if id.Principal != "" {
+			hdr["X-Ident"] = id.Principal
+		}
 	}
 	switch {
+	case op.NoSession:
+		res.Foreign = "nosession"
 	case op.Garble != 0:
 		res.Foreign = "garbled"
 	case op.Ident != slot.Owner:
@@ -718,6 +837,9 @@ func (rc *c29Run) do(op c29Op) (res c29Result) {
 			tok = garbleToken(tok, op.Garble)
 		}
 		hdr["VGI-Session"] = tok
+		if op.NoSession {
+			delete(hdr, "VGI-Session")
+		}
 	} else if !op.NoAccept {
 		hdr["VGI-Session-Accept"] = "true"
 	}
@@ -743,6 +865,9 @@ func (rc *c29Run) do(op c29Op) (res c29Result) {
 			}
 			path = "/" + op.Method + "/exchange"
 			keys, vals := []string{lib.KStreamState, lib.KCallState}, []string{tk[0], tk[1]}
+			if op.Cancel {
+				keys, vals = append(keys, lib.KCancel), append(vals, "true")
+			}
 			if op.Method == "s29_exch" {
 				body = lib.EncodeStream(lib.InSchema, lib.WithMeta(lib.Int64Batch(lib.InSchema, 1), keys, vals))
 			} else {
@@ -782,7 +907,7 @@ func (rc *c29Run) do(op c29Op) (res c29Result) {
 					}
 				}
 			}
-			if streamKey != "" {
+			if streamKey != "" && res.Foreign == "" {
 				// the stage(s) this request was expected to run are over: release anyone waiting on them
 				rc.mu.Lock()
 				prev := rc.streams[streamKey]
@@ -1047,8 +1172,16 @@ func judgeC29(c c29Case, ops map[string]c29Op, results map[string]c29Result, eve
 	drainDone := map[int]int{}      // worker -> seq of the first drain_done
 	openFailed := map[string]string{}
 	openHStart := map[string]int{}
+	stageReq := map[string][]c29Event{} // request op id -> stages that ran in it WITH a session state
+	sends := []c29Event{}
 	for _, e := range events {
 		switch e.Kind {
+		case "stagereq":
+			stageReq[e.Info] = append(stageReq[e.Info], e)
+		case "stagefail":
+			out.Label("stream-stage:" + e.Info)
+		case "send":
+			sends = append(sends, e)
 		case "hstart":
 			if e.Info == "use" {
 				hstart[e.Op] = e
@@ -1193,6 +1326,15 @@ func judgeC29(c c29Case, ops map[string]c29Op, results map[string]c29Result, eve
 			// (4) isolation
 			if r.Foreign != "" {
 				out.Label("foreign:" + r.Foreign)
+				if r.Foreign == "ident" {
+					a, b := c29Idents[op.Ident], c29Idents[c.Slots[op.Slot].Owner]
+					if a.Authn && b.Authn && a.Principal == b.Principal && a.Domain != b.Domain {
+						out.Label("foreign:ident-other-domain")
+					}
+					if a.Authn != b.Authn && a.Principal == "" && b.Principal == "" {
+						out.Label("foreign:ident-empty-principal-vs-anonymous")
+					}
+				}
 				if ran {
 					out.Violate(lib.Keyf("C29", "isolation-handler-ran", r.Foreign), "op %s presented slot %d's token as ident %d at worker %d (%s; owner ident %d worker %d) and its handler ran on slot %d's state",
 						id, op.Slot, op.Ident, op.Worker, r.Foreign, c.Slots[op.Slot].Owner, c.Slots[op.Slot].Worker, hs.Slot)
@@ -1209,6 +1351,9 @@ func judgeC29(c c29Case, ops map[string]c29Op, results map[string]c29Result, eve
 			switch {
 			case ran && r.ErrKind == "":
 				out.Label("use:ok")
+				if c.Slots[op.Slot].TTLms >= 60000 {
+					out.Label("use:ok-live")
+				}
 				if want := fmt.Sprintf("used:%d:%s", op.Slot, id); r.Value != want {
 					out.Violate("C29/response-crosstalk", "op %s: handler ran but the response value is %q, want %q", id, r.Value, want)
 				}
@@ -1216,6 +1361,34 @@ func judgeC29(c c29Case, ops map[string]c29Op, results map[string]c29Result, eve
 				out.Label("use:handler-error")
 			case r.ErrKind == "session_lost":
 				out.Label("use:lost")
+				// (4b) positive resolvability: the owner, on the right worker, on a session that provably cannot have
+				// ended: long TTL and young, and nothing that can end it (DELETE or CloseSession on the slot, shutdown
+				// of the worker) had even been SENT before this response was received
+				if o, ok := opened[op.Slot]; ok && o.Seq < r.SendSeq && c.Slots[op.Slot].TTLms >= 60000 && r.SendTime.Sub(o.T) < 30*time.Second {
+					ended := ""
+					for _, e := range sends {
+						if e.Seq > r.RespSeq {
+							break
+						}
+						if so, known := ops[e.Op]; known && so.Slot == op.Slot && (so.Kind == "delete" || so.ThenClose) {
+							ended = e.Op
+						}
+					}
+					for _, e := range events {
+						if e.Kind == "shutdown_begin" && e.Seq < r.RespSeq && e.Info == strconv.Itoa(op.Worker) {
+							ended = e.Op
+						}
+						if e.Kind == "close_begin" && e.Slot == op.Slot && e.Seq < r.RespSeq {
+							ended = "close"
+						}
+					}
+					if ended == "" {
+						out.Violate("C29/live-session-lost", "op %s: the owner's use of slot %d (ttl %dms, opened %v before) answered session_lost (%q) although no DELETE, CloseSession or shutdown touching it had been sent and its state was never closed; %s",
+							id, op.Slot, c.Slots[op.Slot].TTLms, r.SendTime.Sub(o.T), lib.Short(r.ErrMsg, 80), history(op.Slot))
+					} else {
+						out.Label("use:lost-after-ender")
+					}
+				}
 			default:
 				out.Violate("C29/use-unexpected-outcome", "op %s on slot %d: handler did not run and the response is status %d kind %q msg %q", id, op.Slot, r.Status, r.ErrKind, lib.Short(r.ErrMsg, 200))
 			}
@@ -1263,6 +1436,31 @@ func judgeC29(c c29Case, ops map[string]c29Op, results map[string]c29Result, eve
 					}
 				}
 			}
+			if r.Foreign != "" && op.Kind == "stream-continue" {
+				what := "foreign-continue:" + r.Foreign
+				if op.Cancel {
+					what = "foreign-cancel:" + r.Foreign
+				}
+				out.Label(what)
+				if ss := stageReq[id]; len(ss) > 0 {
+					out.Violate(lib.Keyf("C29", "isolation-handler-ran", "continuation", r.Foreign), "%s %s (cancel=%v) presented slot %d's session as ident %d at worker %d (%s) and stage %s ran with slot %d's state",
+						op.Kind, id, op.Cancel, op.Slot, op.Ident, op.Worker, r.Foreign, ss[0].Op, ss[0].Slot)
+				}
+				switch r.Foreign {
+				case "worker", "garbled":
+					// the stream's own tokens are valid here (shared key, same caller): the sticky layer must refuse
+					if r.ErrKind != "session_lost" {
+						out.Violate(lib.Keyf("C29", "isolation-not-session-lost", "continuation", r.Foreign), "%s %s (cancel=%v) presented slot %d's session at worker %d garble %d: expected session_lost, got status %d kind %q msg %q",
+							op.Kind, id, op.Cancel, op.Slot, op.Worker, op.Garble, r.Status, r.ErrKind, lib.Short(r.ErrMsg, 120))
+					}
+				case "ident":
+					// the stream's tokens are bound to the caller as well, so whichever layer refuses first is fine
+					if r.ErrKind == "" && r.Status < 400 {
+						out.Violate("C29/isolation-continuation-served-other-identity", "%s %s by ident %d on ident %d's stream and session was served (status %d)", op.Kind, id, op.Ident, c.Slots[op.Slot].Owner, r.Status)
+					}
+				}
+				continue
+			}
 			if r.Foreign != "" {
 				out.Label("foreign-stream:" + r.Foreign)
 				if op.Kind == "stream-init" && stages > 0 {
@@ -1274,6 +1472,8 @@ func judgeC29(c c29Case, ops map[string]c29Op, results map[string]c29Result, eve
 				continue
 			}
 			switch {
+			case r.ErrKind == "" && op.Cancel:
+				out.Label("stream-cancel:ok")
 			case r.ErrKind == "":
 				out.Label(op.Kind + ":ok:" + op.Method)
 			case r.ErrKind == "session_lost":
@@ -1350,14 +1550,16 @@ func judgeC29(c c29Case, ops map[string]c29Op, results map[string]c29Result, eve
 
 var propC29 = lib.Prop[c29Case]{
 	ID: "C29",
-	Rule: "concurrent histories over 1-3 workers sharing a token key and 2-4 identities (one anonymous): session slots opened in a sequential prologue or inside the history (with/without VGI-Session-Accept, panicking after opening), " +
+	Rule: "concurrent histories over 1-3 workers sharing a token key and 2-5 identities (anonymous, two principals in one domain, the same principal in another domain, authenticated with an empty principal): session slots opened in a sequential prologue or inside the history (with/without VGI-Session-Accept, panicking after opening), " +
 		"client goroutines running use / slow use (handler held on a harness gate) / use-then-CloseSession / DELETE / wait-past-TTL / drain / shutdown, tokens presented by other identities, at other workers and bit-flipped; " +
-		"producer and exchange stream calls bearing the session (/init + /exchange continuations, producer batch limit 1) whose init handler and every Produce/Exchange turn record an interval on the session state and can be held on a gate while another request bearing the session is fired; " +
+		"producer and exchange stream calls bearing the session (/init + /exchange continuations, producer batch limit 1) whose init handler and every Produce/Exchange turn record an interval on the session state and can be held on a gate (and then return an error or panic) while another request bearing the session is fired; continuations and cancels of such a stream presented by another identity, at another worker, with a bit-flipped session token or without the session header; " +
 		"barriers force 'second request arrives while the first holds the session', 'close completes while another waits', 'open after Drain returned'. Oracle: invariants over the recorded history (see DESIGN C29). " +
 		"Non-trivial: at least two requests bearing the same session overlapped in time.",
 	Gen:          genC29,
 	Run:          runC29,
-	Essential:    []string{"overlap", "use:ok", "use:lost", "foreign:ident", "foreign:garbled", "open:while-draining", "delete:204", "expired:sent-after-ttl", "open:ok", "stream-init:ok:s29_prod", "stream-init:ok:s29_exch", "stream-continue:ok:s29_prod", "stream-continue:ok:s29_exch"},
+	Essential:    []string{"overlap", "use:ok", "use:lost", "foreign:ident", "foreign:garbled", "open:while-draining", "delete:204", "expired:sent-after-ttl", "open:ok", "stream-init:ok:s29_prod", "stream-init:ok:s29_exch", "stream-continue:ok:s29_prod", "stream-continue:ok:s29_exch",
+		"foreign-continue:ident", "foreign-continue:garbled", "foreign-continue:nosession", "foreign-cancel:garbled", "stream-cancel:ok", "stream-stage:error", "stream-stage:panic",
+		"foreign:ident-other-domain", "foreign:ident-empty-principal-vs-anonymous", "use:ok-live"},
 	EssentialMin: 60,
 	Assumptions: []string{
 		"schedules are sampled (random + barrier-forced), not enumerated; every barrier has a 1.5 s fallback so a slow machine can only miss an interleaving",
